@@ -237,7 +237,7 @@ def run(tier, seed):
                                     theorem=pg['theorems'], problems=pg['problems']), False))
     ncases = 60 if tier == 'quick' else 800
     cases = [seed * 100000 + 6000 + i for i in range(ncases)]
-    for r in core.run_cases(run_case, cases):
+    for r in core.run_cases(run_case, core.with_corpus(PID, cases)):
         rep.merge(r)
     rep.obligation('correspondence: Writers.Combine.combine = output directory of combine (binary files byte for byte, level headers '
                    'token for token, global header with floats by value)',
